@@ -63,6 +63,7 @@ def handle (f : List String) : String :=
           (acc.1 + p.2, acc.2 ++ [fvToBitsStr (.num p.1) ++ ":" ++ toString (acc.1 + p.2)])) (0, [])
         ",".intercalate r.2
       s!"a={one va} b={one vb}"
+  | "reload" :: _ => "-"
   | _ => "BAD-CASE"
 
 end MtailVerif.Driver.C21
